@@ -240,7 +240,12 @@ def rule_atomic(ctx, ig, cp, prop='C04'):
         inb = e.batch is not None and e.batch is cp.batch
         after_cp = ig.find_path([cp.gnode], [e.gnode]) is not None
         prov, _w = key_provenance(ctx, e)
-        if inb:
+        if inb and after_cp:
+            # the handle is still in scope after the `with` block, but the batch was written when the block was left
+            ctx.bad(f'{prop}.ATOMIC', ctx.key(e.frame.func, e.call, 'after the batch was committed'),
+                    f'{e.text()} is queued on the batch AFTER its `with` block has been left: the batch is already written, the operation '
+                    'is silently dropped (or lands in a second write) - the rows are committed without it', loc=f'{e.frame.func.unit.relpath}:{e.call.lineno}')
+        elif inb:
             ctx.ok(f'{prop}.ATOMIC', ctx.key(e.frame.func, e.call, 'in commit batch'),
                    'UTXO mutation is part of the batch that carries the state record',
                    f'{e.frame.func.unit.relpath}:{e.call.lineno}')
